@@ -5,7 +5,7 @@ package consensus
 import "github.com/lianxiangcloud/linkchain/types"
 
 // Add-only test seam for check C17 (see /verif/harness/cmd/c17). Nothing here changes behaviour; it only makes
-// two unexported functions of this package callable from the harness.
+// three unexported functions of this package callable from the harness.
 
 // VerifC17UpdateStatus calls the unexported updateStatus: the step that derives the status (and with it the
 // validator set of the next height) from the committed header and the validator list returned by the application.
@@ -17,4 +17,10 @@ func VerifC17UpdateStatus(status NewStatus, blockID types.BlockID, header *types
 // into the next block (who was the round-0 proposer of the last height, who proposed in the commit round).
 func VerifC17LastFaultValsInfo(cs *ConsensusState, lastCommit *types.Commit) types.Evidence {
 	return cs.getLastFaultValsInfo(lastCommit)
+}
+
+// VerifC17UpdateValidators calls the unexported updateValidators: the incremental add / update / remove of a
+// change list on a validator set (ValidatorSet.Add / Update / Remove behind one entry point).
+func VerifC17UpdateValidators(set *types.ValidatorSet, changes []*types.Validator) error {
+	return updateValidators(set, changes)
 }
